@@ -260,9 +260,22 @@ def create_end_event(
                     if event_set.to_frozenset().issubset(loop_event_types):
                         end_event.update_in_event_sets(event_set.to_list())
         else:
-            # if no exit event nodes update end events in event sets to
-            # to be a single occurence of the end event
-            end_event.update_in_event_sets([end_event_node.event_type])
+            # if no exit event nodes the only evidence of how the end events
+            # merge is the loop back: mirror the in event sets of the start
+            # events that are made of loop events and hold the end event
+            mirrored = False
+            for start_event_node in loop.start_events:
+                for event_set in start_event_node.in_event_sets:
+                    event_types = event_set.to_frozenset()
+                    if (
+                        end_event_node.event_type in event_types
+                        and event_types.issubset(loop_event_types)
+                    ):
+                        end_event.update_in_event_sets(event_set.to_list())
+                        mirrored = True
+            if not mirrored:
+                # otherwise a single occurence of the end event
+                end_event.update_in_event_sets([end_event_node.event_type])
     return end_event
 
 
